@@ -312,7 +312,8 @@ CHECK = {
     "theorems": ["c16_labels", "c16_label_index", "c16_eq", "c16_hash", "c16_hash_inj", "c16_order_rfc4034", "c16_order_total",
                  "c16_order_eq_consistent", "c16_subdomain", "c16_is_root", "c16_text_accepts", "c16_display",
                  "c16_text_roundtrip", "c16_builder_partial", "c16_builder_finish", "c16_superdomain", "c16_lowercase",
-                 "c16_lowercase_idempotent", "c16_is_wildcard", "c16_builder_push_slice"],
+                 "c16_lowercase_idempotent", "c16_is_wildcard", "c16_builder_push_slice", "c16_builder_step",
+                 "c16_builder_finish_with_suffix", "c16_oracle_is_spec", "c16_text_is_oracle", "c16_text_rejects_non_ascii"],
     "allowed_axioms": [],
     "suites": [{
         "name": "names", "impl_bin": "impl_c16", "extract": "Extract/ExC16.v", "driver": "run_c16.ml",
@@ -339,7 +340,8 @@ CHECK = {
         "not verified: the unsafe DST allocation new_boxed_name / Box<LowercaseName> casts (exercised through the harness only); "
         "SipHash itself (hash equality is compared through DefaultHasher, the model only fixes the octet stream fed to the Hasher)",
     ],
-    "assumptions": ["label octets < 256; texts are ASCII octet strings in the acceptance theorem (Rust &str is valid UTF-8; non-ASCII texts are covered by the differential run)"],
+    "assumptions": ["label octets < 256; a Rust &str is valid UTF-8 (utf8_valid of Model/ZfStd.v, the acceptance model of str::from_utf8 that C24's "
+                    "differential run compares with the standard library) in the non-ASCII rejection theorem"],
 }
 
 MANIFEST = {
@@ -349,10 +351,12 @@ MANIFEST = {
                    "equality of lower-cased label lists; equal names feed equal (and unequal names different) octet streams to the Hasher; Ord "
                    "is the RFC 4034 §6.1 lexicographic order on reversed lower-cased labels, a total order consistent with ==; "
                    "eq_or_subdomain_of/superdomain/Index/make_ascii_lowercase/is_root/is_wildcard equal one-line list functions; NameBuilder "
-                   "try_push/next_label/finish keep the name limits and never panic. Tied to the crate by a differential run (~92k cases quick) "
+                   "try_push/next_label/finish/finish_with_suffix keep the name limits and never panic (finish_with_suffix returns exactly the "
+                   "concatenation with the suffix name, or NameTooLong iff it exceeds 255 octets); valid UTF-8 text with a non-ASCII character is "
+                   "always rejected; the executable text oracle used by the run is proved equal to the declarative relation. Tied to the crate by a differential run (~92k cases quick) "
                    "with an independent executable oracle on every implementation output."),
-    "level_note": ("Partial: finish_with_suffix has no theorem; the acceptance theorem is for ASCII texts (non-ASCII rejection "
-                   "is differential only); the executable text oracle is not proved equal to the relation. Trusted: Coq kernel, extraction, the "
+    "level_note": ("c16_builder_partial keeps its name but is no longer partial (finish_with_suffix: c16_builder_finish_with_suffix; "
+                   "non-ASCII: c16_text_rejects_non_ascii; oracle: c16_oracle_is_spec). Trusted: Coq kernel, extraction, the "
                    "hand-written model's correspondence (differentially tested), SipHash, the unsafe DST allocation."),
     "technique": "machine-checked proof in Coq + model/implementation correspondence check",
     "design_ref": "DESIGN.md §4 C16",
